@@ -181,7 +181,7 @@ class AbstractDomain:
                 from .tshape import split_digits
 
                 prow = lambda comps: [tuple(split_digits(unmerged, comps)[:nfp])]
-            f = z3.Function(core.fresh_name(f"{self.name}_{kind}"), *([z3.IntSort()] * len(rows.factors) + [z3.IntSort(), z3.RealSort()]))
+            f = z3.Function(core.random_name(f"{self.name}_{kind}"), *([z3.IntSort()] * len(rows.factors) + [z3.IntSort(), z3.RealSort()]))
             rec = {"kind": kind, "n": n, "d": d, "params": params, "rows": rows}
             self.calls.append(rec)
 
@@ -339,7 +339,7 @@ class AbstractSampler:
         nfp = len(pd.factors)
         from .tshape import split_digits
 
-        f = z3.Function(core.fresh_name(f"{self.name}_pts"), *([z3.IntSort()] * len(rows.factors) + [z3.IntSort(), z3.RealSort()]))
+        f = z3.Function(core.random_name(f"{self.name}_pts"), *([z3.IntSort()] * len(rows.factors) + [z3.IntSort(), z3.RealSort()]))
         dim = self.dim
         me = self
 
